@@ -40,6 +40,9 @@ type viol struct {
 	Desc   string
 	Replay interface{}
 	Rank   int // smaller = simpler case (for choosing the example that is reported first)
+
+	job  *treeJob // sequential violations: what to minimise
+	syms []int
 }
 
 type shardOut struct {
@@ -48,21 +51,27 @@ type shardOut struct {
 	Samples    []interface{}
 	Incomplete string
 	Outcomes   map[string]int
+
+	perSig map[string]int
 }
 
 func (o *shardOut) violate(rank int, sig, desc string, replay interface{}) {
-	n := 0
-	for _, v := range o.Violations {
-		if v.Sig == sig {
-			n++
-		}
-	}
-	if n < 4 {
-		o.Violations = append(o.Violations, viol{Sig: sig, Desc: desc, Replay: replay, Rank: rank})
-	} else {
-		o.Counters["violations_not_listed"]++
-	}
+	o.violateSeq(rank, sig, func() (string, interface{}) { return desc, replay }, nil, nil)
+}
+
+// violateSeq records a violating case; the description is only rendered for the few cases that are listed.
+func (o *shardOut) violateSeq(rank int, sig string, render func() (string, interface{}), job *treeJob, syms []int) {
 	o.Counters["violating_cases"]++
+	if o.perSig == nil {
+		o.perSig = map[string]int{}
+	}
+	o.perSig[sig]++
+	if o.perSig[sig] > 4 {
+		o.Counters["violations_not_listed"]++
+		return
+	}
+	desc, replay := render()
+	o.Violations = append(o.Violations, viol{Sig: sig, Desc: desc, Replay: replay, Rank: rank, job: job, syms: append([]int(nil), syms...)})
 }
 
 // ---------------------------------------------------------------------------------------------------
@@ -144,7 +153,7 @@ func histNames(j *treeJob, seq []int) []string {
 
 // runHistory executes one history on a fresh instance, checking every step. It returns the index of the
 // first failing step (len(seq) = the implicit final query) or -1.
-func runHistory(out *shardOut, j *treeJob, js []byte, pool *scen.Pool, seq []int, viaHTTP bool, states map[string]bool, initial string) int {
+func runHistory(out *shardOut, j *treeJob, js []byte, pool *scen.Pool, seq []int, viaHTTP bool, states map[uint64]bool, initial string) int {
 	var h *scen.Harness
 	var err error
 	if viaHTTP {
@@ -161,11 +170,18 @@ func runHistory(out *shardOut, j *treeJob, js []byte, pool *scen.Pool, seq []int
 		return map[string]interface{}{"part": "seq", "tree": j.Tree.String(), "config": string(js), "history": histNames(j, seq[:n]), "symbols": append([]int(nil), seq[:n]...), "final_query": upto >= len(seq)}
 	}
 	if err != nil {
-		out.violate(rank, "configure:rejected", fmt.Sprintf("tree %s: configuration rejected or panicked: %v", j.Tree, err), replay(0))
+		out.violate(rank, "configure:rejected", fmt.Sprintf("tree %s: configuration rejected or panicked: %v", j.Tree, err), nil)
 		return 0
 	}
 	md := scen.NewModel(j.Tree)
 	nontrivial := false
+	violate := func(step int, sig string, desc func() string) {
+		n := step + 1
+		if n > len(seq) {
+			n = len(seq)
+		}
+		out.violateSeq(rank+step, sig, func() (string, interface{}) { return desc(), replay(step) }, j, seq[:n])
+	}
 	query := func(step int) bool {
 		toks, raw, err := h.Query()
 		out.Counters["seq_queries_compared"]++
@@ -174,7 +190,9 @@ func runHistory(out *shardOut, j *treeJob, js []byte, pool *scen.Pool, seq []int
 			if strings.HasPrefix(err.Error(), "panic") {
 				sig = "panic:verify"
 			}
-			out.violate(rank+step, sig, fmt.Sprintf("tree %s history %v: GET /verify: %v (body %q)", j.Tree, histNames(j, seq[:min(step+1, len(seq))]), err, raw), replay(step))
+			violate(step, sig, func() string {
+				return fmt.Sprintf("tree %s history %v: GET /verify: %v (body %q)", j.Tree, histNames(j, seq[:min(step+1, len(seq))]), err, raw)
+			})
 			return false
 		}
 		exp := md.Expected()
@@ -183,7 +201,10 @@ func runHistory(out *shardOut, j *treeJob, js []byte, pool *scen.Pool, seq []int
 		}
 		fs := md.Diff(toks)
 		for _, f := range fs {
-			out.violate(rank+step, f.Sig, fmt.Sprintf("tree %s history %v: GET /verify answered %v, model says %v: %s", j.Tree, histNames(j, seq[:min(step+1, len(seq))]), toks, exp, f.Detail), replay(step))
+			f := f
+			violate(step, f.Sig, func() string {
+				return fmt.Sprintf("tree %s history %v%s: GET /verify answered %v, model says %v: %s", j.Tree, histNames(j, seq[:min(step+1, len(seq))]), map[bool]string{true: " + final query", false: ""}[step >= len(seq)], toks, exp, f.Detail)
+			})
 		}
 		return len(fs) == 0
 	}
@@ -203,7 +224,9 @@ func runHistory(out *shardOut, j *treeJob, js []byte, pool *scen.Pool, seq []int
 				if strings.HasPrefix(err.Error(), "panic") {
 					sig = "panic:traffic"
 				}
-				out.violate(rank+i, sig, fmt.Sprintf("tree %s history %v: exchange %d: %v", j.Tree, histNames(j, seq[:i+1]), i+1, err), replay(i))
+				violate(i, sig, func() string {
+					return fmt.Sprintf("tree %s history %v: exchange %d: %v", j.Tree, histNames(j, seq[:i+1]), i+1, err)
+				})
 				return i
 			}
 			md.Traffic(m, i+1)
@@ -218,13 +241,15 @@ func runHistory(out *shardOut, j *treeJob, js []byte, pool *scen.Pool, seq []int
 				if err != nil {
 					sig = "panic:reset"
 				}
-				out.violate(rank+i, sig, fmt.Sprintf("tree %s history %v: POST /verify/reset returned %d %v, want 204", j.Tree, histNames(j, seq[:i+1]), code, err), replay(i))
+				violate(i, sig, func() string {
+					return fmt.Sprintf("tree %s history %v: POST /verify/reset returned %d %v, want 204", j.Tree, histNames(j, seq[:i+1]), code, err)
+				})
 				return i
 			}
 			md.Reset()
 		}
 		if len(states) < 1<<21 {
-			states[md.StateKey()] = true
+			states[md.StateHash()] = true
 		}
 	}
 	out.Counters["seq_steps"]++
@@ -245,7 +270,7 @@ func seqPart(out *shardOut, jobs []treeJob, deadline time.Time) {
 		k := len(j.Alpha) + 2
 		L := j.Len
 		js := []byte(j.Tree.JSON())
-		states := map[string]bool{}
+		states := map[uint64]bool{}
 		initial := strings.Join(scen.NewModel(j.Tree).Expected(), ",")
 		seq := make([]int, L)
 		var n int64
@@ -288,6 +313,48 @@ func seqPart(out *shardOut, jobs []treeJob, deadline time.Time) {
 		if out.Incomplete != "" {
 			break
 		}
+	}
+	minimise(out, pool)
+}
+
+// minimise shrinks the history of every listed sequential violation greedily (drop one step at a time while
+// the same signature still fires), so that the reported example is a smallest one.
+func minimise(out *shardOut, pool *scen.Pool) {
+	for vi := range out.Violations {
+		v := &out.Violations[vi]
+		if v.job == nil {
+			continue
+		}
+		j := v.job
+		js := []byte(j.Tree.JSON())
+		initial := strings.Join(scen.NewModel(j.Tree).Expected(), ",")
+		fires := func(seq []int) *viol {
+			tmp := &shardOut{Counters: map[string]int64{}, Outcomes: map[string]int{}}
+			runHistory(tmp, j, js, pool, seq, false, map[uint64]bool{}, initial)
+			for i := range tmp.Violations {
+				if tmp.Violations[i].Sig == v.Sig {
+					return &tmp.Violations[i]
+				}
+			}
+			return nil
+		}
+		cur := append([]int(nil), v.syms...)
+		best := fires(cur)
+		if best == nil {
+			continue
+		}
+		for changed := true; changed; {
+			changed = false
+			for i := 0; i < len(cur); i++ {
+				cand := append(append([]int(nil), cur[:i]...), cur[i+1:]...)
+				if w := fires(cand); w != nil {
+					cur, best, changed = cand, w, true
+					break
+				}
+			}
+		}
+		v.Desc, v.Replay, v.Rank = best.Desc, best.Replay, j.Tree.Size()*100+len(cur)
+		v.job, v.syms = nil, nil
 	}
 }
 
@@ -972,7 +1039,7 @@ func main() {
 	rep.Coverage["conc_scenarios_detail"] = concSamples
 	rep.Coverage["race_pass"] = map[string]interface{}{"scenarios": rr.Scenarios, "iterations": rr.Iterations, "reports": len(rr.Reports), "signatures": raceSigs, "seconds": rr.Seconds, "error": rr.Err}
 	rep.Coverage["exhaustive"] = rep.Incomplete == ""
-	rep.Coverage["rule"] = "sequential: every numbered tree with <= n nodes x every sequence of exactly L symbols over the tree's alphabet (all routing x met/unmet decision paths as plain messages; API-marked messages per routing path with all expectations unmet, and all met when a pingback verifier is present; GET /verify; POST /verify/reset), checked step by step so every shorter history is covered as a prefix, plus one final query; extensions of a failing prefix are skipped. A history is non-trivial when some query in it (explicit or final) has an expected answer different from the fresh tree's. concurrent: all interleavings of the rewritten lock operations of the listed scenarios."
+	rep.Coverage["rule"] = "sequential: every numbered tree with <= n nodes x every sequence of exactly L symbols over the tree's alphabet (all routing x met/unmet decision paths as plain messages; API-marked messages per routing path that reaches a verifier, with all expectations unmet, and also all met when a pingback verifier is present; GET /verify; POST /verify/reset), checked step by step so every shorter history is covered as a prefix, plus one final query; extensions of a failing prefix are skipped. A history is non-trivial when some query in it (explicit or final) has an expected answer different from the fresh tree's. concurrent: all interleavings of the rewritten lock operations of the listed scenarios."
 	rep.Coverage["bounds"] = fmt.Sprintf("sequential: %d trees with <= %d nodes, histories of length <= %d; concurrent: %d scenarios (1-3 traffic threads x 1-2 exchanges, 1-2 query threads, 0-1 reset thread), unbounded preemptions; race pass: %d scenarios x iterations = %d free-running runs", len(jobs), maxN, lenFor(maxN), len(scs), rr.Scenarios, rr.Iterations)
 	rep.Assumptions = []string{
 		"traffic is applied as the proxy applies it (martian context linked to the request, ModifyRequest then ModifyResponse on the configurable martianhttp.Modifier); no sockets are involved; API requests are marked through the context exactly like api.Forwarder does",
@@ -1025,7 +1092,7 @@ func replay(path string) {
 			if j.Tree.String() == r.Tree && j.Tree.JSON() == r.Config {
 				out := &shardOut{Counters: map[string]int64{}, Outcomes: map[string]int{}}
 				j := j
-				fail := runHistory(out, &j, []byte(r.Config), &scen.Pool{}, r.Symbols, true, map[string]bool{}, strings.Join(scen.NewModel(j.Tree).Expected(), ","))
+				fail := runHistory(out, &j, []byte(r.Config), &scen.Pool{}, r.Symbols, true, map[uint64]bool{}, strings.Join(scen.NewModel(j.Tree).Expected(), ","))
 				fmt.Printf("replay tree %s history %v: failing step %d\n", r.Tree, histNames(&j, r.Symbols), fail)
 				for _, v := range out.Violations {
 					fmt.Printf("  %s: %s\n", v.Sig, v.Desc)
